@@ -164,7 +164,7 @@ def walimpl_design(eng, ti):
     Open / StoreLogs / rotation / DeleteRange, incl. inside recovery; the repaired design must satisfy the C01/C03/C04/C13
     invariants; the design switches (pinned F1, seeded S02, no sweep, no tail re-creation) must each be rejected."""
     consts = dict(MaxIdx=(4, 5)[ti], SealAt=(3, 2)[ti], MaxCrashes=(2, 3)[ti], MaxOps=(5, 6)[ti],
-                  RotateOnOpen=True, CreateBeforeCommit=False, Sweep=True, RecreateTail=True, MaxFaults=0, Recommit=True)
+                  RotateOnOpen=True, CreateBeforeCommit=False, Sweep=True, RecreateTail=True, MaxFaults=0, Recommit=True, KeepNextId=True)
     r = tlc("WalImpl", cfg_text(constants=consts, invariants=WALIMPL_INVS), timeout=(200, 1500)[ti])
     if r.error == "timeout":
         eng.stats["walimpl_timeout"] = True
@@ -314,7 +314,7 @@ def walimpl_fault_design(eng, ti):
     rejected (acknowledged appends vanish at the next restart)."""
     invs = ["C03_OpenSucceeds", "C01_ViewAllowed", "C01_Recovered", "C13_ExactDir", "C13_UniqueIds", "MemMatchesMeta"]
     consts = dict(MaxIdx=(4, 5)[ti], SealAt=(3, 2)[ti], MaxCrashes=2, MaxOps=(5, 6)[ti], RotateOnOpen=True,
-                  CreateBeforeCommit=False, Sweep=True, RecreateTail=True, MaxFaults=(1, 2)[ti], Recommit=True)
+                  CreateBeforeCommit=False, Sweep=True, RecreateTail=True, MaxFaults=(1, 2)[ti], Recommit=True, KeepNextId=True)
     r = tlc("WalImpl", cfg_text(constants=consts, invariants=invs), timeout=(200, 1200)[ti])
     if r.error == "timeout":
         eng.stats["walimpl_fault_timeout"] = True
@@ -328,6 +328,12 @@ def walimpl_fault_design(eng, ti):
     eng.stats["walimpl_faults_negative_control"] = neg.violated
     if neg.violated != "C01_ViewAllowed":
         raise Inconclusive("WalImpl negative control Recommit=FALSE (F15) was not rejected: %s %s" % (neg.violated, neg.error))
+    neg2 = tlc("WalImpl", cfg_text(constants=dict(consts, MaxIdx=4, SealAt=3, MaxOps=5, MaxFaults=1, KeepNextId=False),
+                                   invariants=["C03_OpenSucceeds", "C13_UniqueIds"]), timeout=300)
+    eng.stats["walimpl_faults_negative_control_nextid"] = neg2.violated
+    if not neg2.violated:
+        raise Inconclusive("WalImpl negative control KeepNextId=FALSE (segment id handed out again after a creation that "
+                           "failed half-way) was not rejected: %s" % neg2.error)
 
 
 def check_fault(pid, tier, seed):
